@@ -57,6 +57,38 @@ NEEDS = {
  'C16-3': 'a filter that has processed, then a device sample-rate change, with the cutoff not moving afterwards',
  'C17-3': 'a Pulse LFO with more than one cycle per internal chunk (or a phase >= 2 set at run time)',
  'C18-3': 'a seek whose target lies in the packet the decoder thread decoded last (about one ring ahead of what is heard) on a sound longer than the ring',
+ 'C01-4': 'a streaming sound consuming more than one source frame per output frame (rate > 1, or a 48 kHz file on a 44.1 kHz device) whose decoder is behind at exactly that frame: the callback spins until the decoder delivers',
+ 'C01-5': 'a float-power easing in a modulator mapping, the modulator leaving the mapping\'s input range, and a Duration-typed target (compressor attack): NaN reaches Duration::from_secs_f64',
+ 'C02-5': 'set_send with a running tween, a pause of the track during that tween, and a resume: the route tween stands still while paused',
+ 'C02-6': 'a device buffer longer than the internal buffer and not a multiple of it: the remainder is never rendered',
+ 'C03-4': 'stop(long fade) followed by stop(short fade) on a static sound: the second one is ignored',
+ 'C03-5': 'a looping sound seeking to a target at or past the end of the audio (documented to wrap): flagged as finished',
+ 'C04-3': 'a loop starting after 0, playback still in the intro, and a forward seek to a target before the loop start',
+ 'C04-4': 'stereo content whose channels differ together with a playback rate != 1 (or a device rate different from the sound\'s)',
+ 'C05-4': 'a thread interleaving inside one on_start_processing: clocks are collected, the caller adds a clock and a sound scheduled on it, then sounds are collected',
+ 'C05-5': 'a sound paused while waiting for its clock start time whose clock handle is dropped during the pause',
+ 'C07-4': 'a write published between the two atomic loads of CommandReader::read (updated(), then read()); there is no yield point between them',
+ 'C07-5': 'a command written to a track handle followed by the drop of that handle before the next callback, on a track that outlives its handle',
+ 'C08-5': 'a track that outlives its dropped handle (persisting / live grand-child) whose sound finishes later: destroyed on the audio thread',
+ 'C08-6': 'add a tweener, set() it with a non-instant tween, one callback, then drop the handle: it lingers until the tween is over',
+ 'C08-7': 'a SoundData whose into_sound() fails, played on a spatial track handle',
+ 'C09-5': 'a stop fade that consumes more source frames than the ring holds while undecoded audio remains',
+ 'C09-6': 'a volume / rate / panning tween with non-zero duration overlapping a fully paused (or not yet started) interval of a streaming sound',
+ 'C09-7': 'a sliced static sound with an open-ended initial loop region, played to the slice end',
+ 'C10-3': 'an audio callback plus a handle query between the decoder raising its error flag and handing the error over',
+ 'C11-5': 'a delay with a stateful feedback effect and input with gaps of exact silence longer than a chunk while echoes still circulate',
+ 'C11-6': 'a playing spatial track and an internal chunk of exactly one frame',
+ 'C11-7': 'two static sounds on the main track, one of which ends, and a callback spanning more than one internal chunk (two sites that are only wrong together)',
+ 'C12-5': 'pause; resume_at(delayed or clock); pause again before it fires',
+ 'C12-6': 'a concurrent TrackHandle::state() while the audio thread cancels a resume_at whose clock was removed: a transient invalid state',
+ 'C12-7': 'a top-level track whose handle was dropped but which lives on (persisting / live child): it is no longer serviced',
+ 'C15-5': 'a non-linear In* / Out* attenuation curve and a comparison against the curve at an intermediate distance',
+ 'C15-6': 'a listener orientation moving between quaternions in opposite hemispheres (q and -q) within one chunk',
+ 'C16-4': 'a reverb at a device rate other than 44.1 kHz: the stereo spread is a fixed number of frames',
+ 'C16-5': 'a top-level track whose handle was dropped but which lives on, then a device sample-rate change (Mixer-level variant of C16-1)',
+ 'C17-4': 'a modulator handle dropped after on_start_processing and before the last chunk of that callback\'s process',
+ 'C18-4': 'a 32 / 64-bit float WAV with samples beyond full scale',
+ 'C18-5': 'a streaming seek_to to a time whose frame count has a fractional part >= 0.5 (or is one ulp below a whole frame)',
 }
 for d in sorted(glob.glob('/verif/seeded/C*-*')):
     name = os.path.basename(d)
